@@ -61,21 +61,22 @@ def showFrame (fr : Frame) : String :=
   s!"F{fr.id}[" ++ ",".intercalate (fr.dgs.map fun g => s!"{g.rid}@{g.start}-{g.stop}") ++ "]"
 
 /-- run the events; after every quiesce note how many frames are on the wire and which requests
-completed in it -/
-def runLog : Nat → St → List Ev → List String → St × List String
-  | _, s, [], log => (s, log.reverse)
-  | i, s, e :: es, log =>
+completed since the previous quiesce (a caller sees its cancellation when the loop runs again) -/
+def runLog : Nat → St → St → List Ev → List String → St × List String
+  | _, _, s, [], log => (s, log.reverse)
+  | i, sq, s, e :: es, log =>
     let s' := step s e
     match e with
     | .quiesce =>
       let newly := s'.subs.filterMap fun (r, _) =>
-        if isPending (s.futs r) && !isPending (s'.futs r) then some s!"{r}={kindFut (s'.futs r)}" else none
-      runLog (i + 1) s' es ((s!"q{i}:{s'.sent.length}:" ++ ",".intercalate newly) :: log)
-    | _ => runLog (i + 1) s' es log
+        if !isPending (s'.futs r) && (isPending (sq.futs r) || (sq.futs r).isNone) then
+          some s!"{r}={kindFut (s'.futs r)}" else none
+      runLog (i + 1) s' s' es ((s!"q{i}:{s'.sent.length}:" ++ ",".intercalate newly) :: log)
+    | _ => runLog (i + 1) sq s' es log
 
 def stepLine (j : Json) : Option String := do
   let evs ← (← fArr j "events").mapM parseEv
-  let (s, log) := runLog 0 init evs []
+  let (s, log) := runLog 0 init init evs []
   let frames := joinSp (s.sent.map showFrame)
   let outs := joinSp (s.subs.map fun (r, _) => s!"{r}={showFut (s.futs r)}")
   pure (frames ++ " | " ++ joinSp log ++ " | " ++ outs)
